@@ -240,6 +240,61 @@ def Ctor.apply (P : Params) : Ctor → Heap → RVec × Heap
     ({ r.1 with data := d }, r.2)
   | .default, h => (RVec.empty, h)
 
+/-! ### `src/ffi/secret.rs`: buffers handed to the C caller
+
+`SecretBuffer { len, data }` is all that crosses the boundary: the block behind `data` is owned by nobody on the Rust side
+(`ManuallyDrop`) until `askar_buffer_free` re-adopts it with `Vec::from_raw_parts(data, len, len)` — a `Vec` that BELIEVES its
+capacity is `len`.  The model keeps the real block next to the `len` field, so that "the wipe covers the whole block" is a
+theorem about `from_secret` (it is the `shrink_to_fit` that makes capacity = `len`) and not an assumption. -/
+
+structure FfiBuf where
+  /-- the `len` field -/
+  len : Nat
+  /-- the block `data` points to (`none`: `data = NULL`, the `Default` buffer; a block of capacity 0: the dangling pointer of an
+      empty `Vec`) -/
+  block : Option RVec
+deriving Repr, Inhabited
+
+/-- `into_vec`: the inner `Vec` is swapped out (escapes as it is), the emptied buffer is dropped -/
+def intoVec (s : RVec) (h : Heap) : Heap :=
+  let h := if s.cap = 0 then h else h.push (.escape s.id s.cells)
+  dropSecret RVec.empty h
+
+/-- `SecretBuffer::from_secret`: `buf.shrink_to_fit()`, `ManuallyDrop::new(buf.into_vec())`, `len = buf.len()`, `data = buf.as_mut_ptr()` -/
+def ffiFromSecret (P : Params) (s : RVec) (h : Heap) : FfiBuf × Heap :=
+  let r := shrinkToFit P s h
+  (⟨r.1.len, some r.1⟩, intoVec r.1 r.2)
+
+/-- the same WITHOUT the `shrink_to_fit` (sensitivity: what the call is there for) -/
+def ffiFromSecretNoShrink (s : RVec) (h : Heap) : FfiBuf × Heap :=
+  (⟨s.len, some s⟩, intoVec s h)
+
+/-- the C caller may write into the buffer it was given (`data` is `*mut u8`): any bytes, same length -/
+def FfiBuf.overwrite (b : FfiBuf) (d : List UInt8) : FfiBuf :=
+  match b.block with
+  | some v => if d.length = v.data.length then { b with block := some { v with data := d } } else b
+  | none => b
+
+/-- `askar_buffer_free` = `drop(buffer.destroy_into_secret())`: `data = NULL` gives `SecretBytes::default()`; otherwise
+    `SecretBytes::from(Vec::from_raw_parts(data, len, len))` is dropped: `zeroize` clears the `len` cells the `Vec` knows of, and a
+    `Vec` of capacity 0 releases nothing.  Whatever lies beyond `len` in the real block goes back to the allocator as it is. -/
+def ffiBufferFree (b : FfiBuf) (h : Heap) : Heap :=
+  match b.block with
+  | none => h
+  | some v =>
+    if b.len = 0 then h                      -- (a real block behind a zero `len` would be leaked, never wiped)
+    else h.push (.free v.id (List.replicate b.len none ++ v.cells.drop b.len))
+
+/-- `EncryptedBuffer::from_encrypted`: the buffer is a `SecretBuffer`, the two positions are plain numbers -/
+def ffiFromEncrypted (P : Params) (s : RVec) (tagPos noncePos : Nat) (h : Heap) : (FfiBuf × Nat × Nat) × Heap :=
+  let r := ffiFromSecret P s h
+  ((r.1, tagPos, noncePos), r.2)
+
+/-- a buffer is exported and released again (what `c20:buf`'s `ffi_free` and every `c20:ffi` case do) -/
+def ffiRoundTrip (P : Params) (s : RVec) (h : Heap) : Heap :=
+  let r := ffiFromSecret P s h
+  ffiBufferFree r.1 r.2
+
 /-- operations of a run over several live buffers (slots) -/
 inductive Op
   | new (c : Ctor)
@@ -248,6 +303,8 @@ inductive Op
   | drop (i : Nat)
   | intoVec (i : Nat)
   | intoBoxed (i : Nat)
+  /-- the buffer crosses the C boundary (`SecretBuffer::from_secret`) and is released with `askar_buffer_free` -/
+  | ffiFree (i : Nat)
 deriving Repr, Inhabited
 
 inductive Res
@@ -265,11 +322,6 @@ def St.init : St := ⟨[], Heap.init⟩
 def cloneBuf (P : Params) (s : RVec) (h : Heap) : RVec × Heap :=
   let r := alloc s.len h
   vecExtend P r.1 s.data r.2
-
-/-- `into_vec`: the inner `Vec` is swapped out (escapes as it is), the emptied buffer is dropped -/
-def intoVec (s : RVec) (h : Heap) : Heap :=
-  let h := if s.cap = 0 then h else h.push (.escape s.id s.cells)
-  dropSecret RVec.empty h
 
 /-- `into_boxed_slice`: `shrink_to_fit`, `into_vec`, `Vec::into_boxed_slice` -/
 def intoBoxed (P : Params) (s : RVec) (h : Heap) : Heap :=
@@ -300,6 +352,10 @@ def step (P : Params) (st : St) : Op → St × Res
     match st.slots[i]? with
     | none => (st, .skip)
     | some s => (⟨st.slots.eraseIdx i, intoBoxed P s st.heap⟩, .ok)
+  | .ffiFree i =>
+    match st.slots[i]? with
+    | none => (st, .skip)
+    | some s => (⟨st.slots.eraseIdx i, ffiRoundTrip P s st.heap⟩, .ok)
 
 def run (P : Params) (st : St) : List Op → St
   | [] => st
@@ -371,7 +427,7 @@ def specStep (ls : List (List UInt8)) : Op → List (List UInt8) × Res
     match ls[i]? with
     | none => (ls, .skip)
     | some l => (ls ++ [l], .ok)
-  | .drop i | .intoVec i | .intoBoxed i =>
+  | .drop i | .intoVec i | .intoBoxed i | .ffiFree i =>
     match ls[i]? with
     | none => (ls, .skip)
     | some _ => (ls.eraseIdx i, .ok)
